@@ -577,8 +577,9 @@ impl<'l, Data> EventLoop<'l, Data> {
                     .inner
                     .pending_action
                     .replace(PostAction::Continue);
-                // if the source failed, the error is propagated once the book-keeping below is done:
-                // a source that removed itself from within its callback must still be unregistered
+                // if the source (or the application of its post action) failed, the error is propagated
+                // once the book-keeping below is done: a source that removed itself from within its
+                // callback must still be unregistered
                 let mut failure = None;
                 let mut ret = ret.unwrap_or_else(|err| {
                     failure = Some(err);
@@ -594,7 +595,7 @@ impl<'l, Data> EventLoop<'l, Data> {
                             source = reg_token.get_id(),
                             "Postaction reregister for source"
                         );
-                        disp.reregister(
+                        if let Err(err) = disp.reregister(
                             &mut self.handle.inner.poll.borrow_mut(),
                             &mut self
                                 .handle
@@ -602,14 +603,16 @@ impl<'l, Data> EventLoop<'l, Data> {
                                 .sources_with_additional_lifecycle_events
                                 .borrow_mut(),
                             &mut TokenFactory::new(reg_token),
-                        )?;
+                        ) {
+                            failure.get_or_insert(err);
+                        }
                     }
                     PostAction::Disable => {
                         trace!(
                             source = reg_token.get_id(),
                             "Postaction unregister for source"
                         );
-                        disp.unregister(
+                        if let Err(err) = disp.unregister(
                             &mut self.handle.inner.poll.borrow_mut(),
                             &mut self
                                 .handle
@@ -617,7 +620,9 @@ impl<'l, Data> EventLoop<'l, Data> {
                                 .sources_with_additional_lifecycle_events
                                 .borrow_mut(),
                             RegistrationToken::new(reg_token),
-                        )?;
+                        ) {
+                            failure.get_or_insert(err);
+                        }
                     }
                     PostAction::Remove => {
                         trace!(source = reg_token.get_id(), "Postaction remove for source");
